@@ -80,7 +80,10 @@ def oracle_frame(inp):
     """frame from encode_ipmb_msg carries valid checksums and exactly the fields"""
     ipmb = _ipmb()
     h, d = inp['h'], bytes.fromhex(inp['d'])
-    f = ipmb.encode_ipmb_msg(mk_req(h), d)
+    try:
+        f = ipmb.encode_ipmb_msg(mk_req(h), d)
+    except Exception as e:  # noqa
+        return 'in-range header %s raises %s: %s' % (h, type(e).__name__, e)
     rs_sa, rs_lun, rq_sa, rq_lun, seq, netfn, cmd = h
     bad = []
     if sum(f[0:3]) % 256 != 0:
@@ -185,6 +188,9 @@ def run(ctx):
             add('chk_encode %s %s %s' % (hl(h), C.c_hex(d), exp_bytes(r)), ('encode', h, d.hex()))
             oracle('frame', {'h': h, 'd': d.hex()}, 'encode_ipmb_msg:frame-wrong')
             D.add(('enc', tuple(h), d), True, 'encode')
+    for h in hs:
+        oracle('frame', {'h': h, 'd': '0102'}, 'encode_ipmb_msg:frame-wrong')
+        res.evaluations += 1
     for h in malformed[:30]:
         r = attempt(lambda: ipmb.encode_ipmb_msg(mk_req(h), b'\x01\x02'))
         add('chk_encode %s %s %s' % (hl(h), C.c_hex(b'\x01\x02'), exp_bytes(r)), ('encode-malformed', h))
@@ -245,6 +251,25 @@ def run(ctx):
                                   'why': '%s differs and its check is enabled' % fld},
                        'rx_filter:field-%s-%s' % (fld, 'accepted' if enabled else 'rejected-though-disabled'))
             D.add(('mis', fld, bytes(g)), True, 'filter-mismatch-' + fld)
+        # two corrupted bytes whose deltas cancel modulo 256 (one under each checksum, and two
+        # under the same one): "both checksums verify" must be checked separately
+        pairs = [(i, j) for i in range(3) for j in range(3, len(f))] + \
+                [(i, j) for i in range(3, len(f)) for j in range(i + 1, len(f))] + [(0, 1), (0, 2), (1, 2)]
+        for (i, j) in (pairs if k < 10 else rng.sample(pairs, min(len(pairs), 12))):
+            dlt = rng.randrange(1, 256)
+            g = list(f)
+            g[i] = (g[i] + dlt) % 256
+            g[j] = (g[j] - dlt) % 256
+            g = bytes(g)
+            same_region = (i < 3) == (j < 3)
+            add('chk_filter %s %s %s %d' % (hl(h), C.c_hex(g), C.c_list([C.c_bool(x) for x in dflt]), filt(g, dflt)),
+                ('filter-double-corruption', h, g.hex(), i, j))
+            D.add(('dbl', g), True, 'filter-double-corruption')
+            if not same_region:
+                # each checksum is wrong on its own: must be rejected whatever the bytes are
+                oracle('filter', {'h': h, 'f': g.hex(), 'o': dflt, 'expect': 'reject',
+                                  'why': 'bytes %d and %d corrupted by +%d/-%d: neither checksum verifies' % (i, j, dlt, dlt)},
+                       'rx_filter:accepts-frame-with-both-checksums-wrong')
         # short frames
         for n in range(0, 6):
             g = f[:n]
